@@ -204,3 +204,54 @@ def _replay_seed_independence(rp):
 
 BUILDERS["code_hash:_stable_repr"] = _replay_seed_independence
 BUILDERS["code_hash:fn_code_hash.<locals>.hash_if_code_object"] = _replay_seed_independence
+
+
+def _replay_binding_law(rp):
+    """C04: a failed obligation of _compute_effective_kwargs is confirmed natively on the real method by a search over a small family of signatures and
+    presentations (the counter-model's opaque argument structures are not rebuilt): parameter lists of up to 4 names, every subset bound by partial keywords,
+    every split of the remaining values into partial positional / call positional / call keyword arguments.  The oracle is the law the property states:
+    f.partial(*pa, **pk)(*a, **k) binds what f(*pa, *a, **pk, **k) binds -- positional arguments, partial ones first, fill in order the parameters no partial
+    keyword binds; call keywords override."""
+    import itertools
+    import os
+    import sys
+    import types
+    repo = rp.get("repo") or os.environ.get("PYVC_REPO", "/repo")
+    if repo not in sys.path:
+        sys.path.insert(0, repo)
+    from twosigma.memento.reference import FunctionReferenceWithArguments as FWA
+    names_all = ["a", "b", "c", "d"]
+    tried = 0
+    for n in range(1, 5):
+        names = names_all[:n]
+        for pk_names in itertools.chain.from_iterable(itertools.combinations(names, r) for r in range(0, n + 1)):
+            free = [x for x in names if x not in pk_names]
+            for n_pa in range(0, len(free) + 1):
+                for n_a in range(0, len(free) - n_pa + 1):
+                    rest = free[n_pa + n_a:]
+                    for kw_names in itertools.chain.from_iterable(itertools.combinations(rest, r) for r in range(0, len(rest) + 1)):
+                        pk = {x: "pk_" + x for x in pk_names}
+                        pa = tuple("pos_%d" % i for i in range(n_pa))
+                        a = tuple("pos_%d" % (n_pa + i) for i in range(n_a))
+                        k = {x: "kw_" + x for x in kw_names}
+                        expected = dict(pk)
+                        for i, v in enumerate(pa + a):
+                            expected[free[i]] = v
+                        expected.update(k)
+                        obj = object.__new__(FWA)
+                        obj.fn_reference = types.SimpleNamespace(parameter_names=list(names), partial_args=pa, partial_kwargs=dict(pk))
+                        obj.args, obj.kwargs = a, dict(k)
+                        tried += 1
+                        try:
+                            got = obj._compute_effective_kwargs()
+                        except Exception as e:  # noqa
+                            got = "raised %s: %s" % (type(e).__name__, e)
+                        if got != expected:
+                            return {"reproduced": True, "detail": "parameters %r, partial(%s%s), call(%s%s): bound %r, the law gives %r" % (
+                                names, ", ".join(map(repr, pa)), "".join(", %s=%r" % kv for kv in pk.items()), ", ".join(map(repr, a)),
+                                "".join(", %s=%r" % kv for kv in k.items()), got, expected),
+                                "inputs": {"parameter_names": names, "partial_args": list(pa), "partial_kwargs": pk, "args": list(a), "kwargs": k}, "explored": "%d presentations" % tried}
+    return {"reproduced": False, "detail": "the binding law holds on all %d presentations of the family" % tried, "explored": "%d presentations" % tried}
+
+
+BUILDERS["reference:FunctionReferenceWithArguments._compute_effective_kwargs"] = _replay_binding_law
